@@ -190,7 +190,7 @@ theorem busy_while_waiting (cfg : Cfg) (tbl : List Nat) (hsorted : (cfg.queues.m
       obtain ⟨c, g, _, hg, hb⟩ := idle_waiting cfg tbl ops N tk hsorted hout a f hq hf helig
         (fun hmode => v.pub (he.pub (by rw [← hm.cfg]; exact hmode)))
         (fun st hst => he.start st (by rw [← v.info]; exact hst))
-        (fun k g hg => by
+        (fun k _ g hg _ => by
           obtain ⟨g0, hg0, dg⟩ := hm.bwd k g hg
           rw [dg.faults]; exact he.nofault k g0 hg0)
         q hq1 (by rw [hq2.1, hp1, v.prio]) 0 q.slots[0] (by simp [hlen])
